@@ -6,7 +6,7 @@
     about extrema FAIL on the library (known finding K-C08-1), so no theorem is stated there. *)
 From Coq Require Import Reals ZArith List.
 From Coquelicot Require Import Coquelicot.
-From LP Require Import Num NumR OrdLaws C01_Model C01_Proofs C01_Proofs_Global C08_Model C08_Proofs C08_Proofs_Ctor C08_Proofs_Life C08_Proofs_More.
+From LP Require Import Num NumR OrdLaws C01_Model C01_Proofs C01_Proofs_Global C08_Model C08_Proofs C08_Proofs_Ctor C08_Proofs_Life C08_Proofs_More C08_Proofs_Sel C08_Proofs_Ref.
 Import ListNotations.
 Local Open Scope R_scope.
 
@@ -284,3 +284,64 @@ Theorem C08_local_maximum_select (T : Type) (Ops : NumOps T) : OrdLaws Ops -> fo
     (r = fl \/ r = fr \/ exists k, (i1 <= k <= S i2)%nat /\ inside Ops o x1 x2 k r).
 Proof. exact (local_maximum_select Ops). Qed.
 Print Assumptions C08_local_maximum_select.
+
+(** Global_Minimum / Global_Maximum in floating point (1-D, then 2-D): for ANY number type whose comparisons form a total order
+    (OrdLaws: IEEE doubles without NaN, rounding included), any object (any table size, any prefactor), a returned value is exactly
+    min resp. max of prefactor * f_min and prefactor * f_max, where f_min / f_max is an entry of the table not above / not below
+    ANY entry of the table (in 2-D: of any row of it).  [least l m] = In m l and nle m v for every v in l; [least2 f m] the same over
+    the entries of all rows.  No arithmetic law is used.  (non-vacuity: C08_global_select_example) *)
+Theorem C08_global_extrema_select (T : Type) (Ops : NumOps T) : OrdLaws Ops ->
+  (forall o : itab,
+    (forall r, global_minimum Ops o = Ok r -> exists fmin fmax, least Ops (iys o) fmin /\ greatest Ops (iys o) fmax /\
+       r = nmin Ops (nmul Ops (ipre o) fmin) (nmul Ops (ipre o) fmax)) /\
+    (forall r, global_maximum Ops o = Ok r -> exists fmin fmax, least Ops (iys o) fmin /\ greatest Ops (iys o) fmax /\
+       r = nmax Ops (nmul Ops (ipre o) fmin) (nmul Ops (ipre o) fmax))) /\
+  (forall o : itab2,
+    (forall r, global_minimum2 Ops o = Ok r -> exists fmin fmax, least2 Ops (jf o) fmin /\ greatest2 Ops (jf o) fmax /\
+       r = nmin Ops (nmul Ops (jpre o) fmin) (nmul Ops (jpre o) fmax)) /\
+    (forall r, global_maximum2 Ops o = Ok r -> exists fmin fmax, least2 Ops (jf o) fmin /\ greatest2 Ops (jf o) fmax /\
+       r = nmax Ops (nmul Ops (jpre o) fmin) (nmul Ops (jpre o) fmax))).
+Proof. exact (fun OL => conj (global_extrema_select Ops OL) (global_extrema2_select Ops OL)). Qed.
+Print Assumptions C08_global_extrema_select.
+
+(** "all tables as in C01" -- the constructor Interpolation_2D(data_table, x_dim, y_dim, f_dim): applied to the x-major listing
+    [grid_rows xs ys f] (for every x_i in turn the rows (x_i, y_j, f_ij)) of ANY valid grid -- any numbers of abscissae -- it makes the
+    object the constructor from lists makes, i.e. the [grid] object of the valid grid scaled by the units, so every 2-D theorem above
+    holds for it (sort / unique recover the axes, the fill loop recovers f).  (non-vacuity: C08_table_example) *)
+Theorem C08_table_constructor_grid xs ys f xd yd fd : valid_grid xs ys f ->
+  C08_Model.construct2_table ROps (grid_rows xs ys f) xd yd fd
+    = Ok (grid (scale ROps xd xs) (scale ROps yd ys) (scale2 ROps fd f)) /\
+  valid_grid (scale ROps xd xs) (scale ROps yd ys) (scale2 ROps fd f).
+Proof. exact (table_constructor8_object xs ys f xd yd fd). Qed.
+Print Assumptions C08_table_constructor_grid.
+
+(** ... and a data table with a row that does not have three entries terminates the process (any number type, any table size) *)
+Theorem C08_table_constructor_bad_row (T : Type) (Ops : NumOps T) (data : list (list T)) xd yd fd :
+  (exists r, In r data /\ length r <> 3%nat) -> C08_Model.construct2_table Ops data xd yd fd = Exit.
+Proof. exact (table_constructor8_bad_row Ops data xd yd fd). Qed.
+Print Assumptions C08_table_constructor_bad_row.
+
+(** "antisymmetric under exchange of its limits", in floating point: for ANY number type (no law assumed) and any object,
+    Integrate(a,b) and Integrate(b,a) with a < b form the SAME sum [integrate_sum o a b] (same Locate calls, same loop) and differ
+    only in the final factor 1 / -1 -- so on doubles, where multiplication by +-1 is exact, Integrate(b,a) = -Integrate(a,b) bit for bit.
+    Any history of Set_Prefactor / Multiply, in any number type, leaves every member but the prefactor untouched, and the prefactor
+    is the left fold of the history (Multiply: prefactor * factor, in this order). *)
+Theorem C08_any_number_type (T : Type) (Ops : NumOps T) :
+  (forall (o : itab) a b, nltb Ops a b = true -> nltb Ops b a = false ->
+     integrate Ops o a b = rbind (integrate_sum Ops o a b) (fun s => Ok (nmul Ops (nofZ Ops 1) s)) /\
+     integrate Ops o b a = rbind (integrate_sum Ops o a b) (fun s => Ok (nmul Ops (nofZ Ops (-1)) s))) /\
+  (forall (ops : list (popT (T := T))) (o : itab),
+     fold_left (apply_popT Ops) ops o = set_prefactor o (fold_left (pref_stepT Ops) ops (ipre o))).
+Proof. exact (conj (integrate_exchange Ops) (history_any_ops Ops)). Qed.
+Print Assumptions C08_any_number_type.
+
+(** "Global_Minimum/Global_Maximum ... so no evaluation ever falls outside them", at full strength for EVERY evaluation point the
+    library accepts: FALSE of the faithful model (known finding K-C08-1).  Witness: the straight-line table x = 0,1,2, y = 0,1,2,
+    prefactor 1, x = -1/200 (inside the 1 % tolerance): Interpolate returns -1/200 < 0 <= Global_Minimum.  The witness is
+    replayed on the library on every run (corpus/C08/known.case). *)
+Theorem C08_global_bound_accepted_points_refuted :
+  exists xs ys c x v r, valid_table xs ys /\
+    nth 0 xs 0 - tolL xs < x < nth (length xs - 1) xs 0 + tolR xs /\
+    interpolate ROps (ptab c xs ys) x = Ok v /\ global_minimum ROps (ptab c xs ys) = Ok r /\ v < r.
+Proof. exact global_bound_accepted_points_refuted. Qed.
+Print Assumptions C08_global_bound_accepted_points_refuted.
